@@ -14,6 +14,9 @@ Each clause of the property is one section:
 * §3 `Pipe` — pipelined TCP: a delivered message carries the ID its waiter allocated and was read
               from that waiter's connection; a timeout closes.
 * §4 `Fwd`  — a retired forwarder is closed exactly once, after its last in-flight query.
+* §5 `Loop` — … and `forwardWithDialArg` / `getOrCreateDnsForwarder` / the retire paths use the entries by that
+              protocol: every forwarder ever created is closed at most once, never under an exchange, and none is
+              leaked.
 -/
 namespace DaeVerif.C09.Props
 open DaeVerif.C09
@@ -29,10 +32,12 @@ carries that client's transaction ID and that client's question (up to the case 
 theorem reply_carries_client_id_and_question (cs : List Client) (as : List Act) (i : Nat) (r : Reply)
     (h : (i, Outcome.wrote r) ∈ (run codeCfg (init cs) as).outs) :
     ∃ c, cs[i]? = some c ∧ r.id = c.id ∧
-      ∃ rq, r.q = some rq ∧ rq.name = c.q.name ∧ rq.qtype = c.q.qtype ∧ rq.qclass = c.q.qclass := by
+      (c.nq ≠ 0 → ∃ rq, r.q = some rq ∧ rq.name = c.q.name ∧ rq.qtype = c.q.qtype ∧ rq.qclass = c.q.qclass) ∧
+      (c.nq ≠ 1 → r = ownReply c rcodeFormErr false) ∧ (c.nq = 0 → r.q = none) := by
   have hinv := inv_run codeCfg rfl as _ (inv_init cs)
+  have hform := formInv_run codeCfg as _ (formInv_init cs)
   obtain ⟨c, hc, hg⟩ := hinv.outsGood i _ h
-  obtain ⟨hid, rq, hrq, hs⟩ := hg r rfl
+  obtain ⟨hid, hq⟩ := hg r rfl
   have hcl : (run codeCfg (init cs) as).clients = cs := by
     have : ∀ (as : List Act) (s : St), (run codeCfg s as).clients = s.clients := by
       intro as
@@ -44,18 +49,49 @@ theorem reply_carries_client_id_and_question (cs : List Client) (as : List Act) 
         rw [ih]
         cases a <;> simp only [step] <;> (repeat' split) <;> rfl
     exact this as _
+  have hf : c.nq ≠ 1 → r = ownReply c rcodeFormErr false := by
+    intro hn
+    have := hform.2 i _ c h hc hn
+    cases this; rfl
   rw [hcl] at hc
-  have hi := same_iff.mp hs
-  simp only [Question.ident, Prod.mk.injEq] at hi
-  exact ⟨c, hc, hid, rq, hrq, hi.1, hi.2.1, hi.2.2⟩
+  refine ⟨c, hc, hid, ?_, hf, ?_⟩
+  · intro hn
+    obtain ⟨rq, hrq, hs⟩ := hq hn
+    have hi := same_iff.mp hs
+    simp only [Question.ident, Prod.mk.injEq] at hi
+    exact ⟨rq, hrq, hi.1, hi.2.1, hi.2.2⟩
+  · intro h0
+    rw [hf (by omega)]
+    simp [ownReply, h0]
 
 /-- the hypothesis is satisfiable: two clients with the SAME transaction ID and differently-cased
 spellings of one name, the second coalesced onto the first's resolution; both get a reply. -/
 example :
-    let cs : List Client := [⟨7, ⟨1, 0, 1, 1⟩, 0, .forward⟩, ⟨7, ⟨1, 3, 1, 1⟩, 0, .forward⟩]
+    let cs : List Client := [⟨7, ⟨1, 0, 1, 1⟩, 0, .forward, 1⟩, ⟨7, ⟨1, 3, 1, 1⟩, 0, .forward, 1⟩]
     let s := run codeCfg (init cs)
-      [.arrive 0, .join 0, .arrive 1, .join 1, .resolve 0 .udp (.msg ⟨99, some ⟨1, 0, 1, 1⟩, true, 0, false, 5, false⟩) .fail, .wake 1, .wake 0]
+      [.arrive 0, .join 0, .arrive 1, .join 1, .resolve 0 .udp [⟨(.msg ⟨99, some ⟨1, 0, 1, 1⟩, true, 0, false, 5, false⟩), .fail, .accept⟩], .wake 1, .wake 0]
     s.outs.length = 2 ∧ s.calls.length = 1 := by decide
+
+/-- non-vacuity of the two new conjuncts: a query without a question (id 9) and one with two questions (id 10)
+are answered FORMERR from the client's own message - in front of the limiter (`refuse`), routing, the cache and
+the singleflight: no resolution is started and nothing is cached. -/
+example :
+    let cs : List Client := [⟨9, ⟨0, 0, 0, 0⟩, 0, .forward, 0⟩, ⟨10, ⟨1, 0, 1, 1⟩, 0, .forward, 2⟩]
+    let s := run codeCfg (init cs) [.arrive 0, .join 0, .refuse 1, .join 1]
+    s.outs = [(0, .wrote ⟨9, none, 1, false, 0, .own⟩), (1, .wrote ⟨10, some ⟨1, 0, 1, 1⟩, 1, false, 0, .own⟩)] ∧
+      s.calls = [] ∧ s.cache = [] ∧ s.pcs = [.done, .done] := by decide
+
+/-- the unrepaired guard (`len(Question) > 1` only), on the real code: a query WITHOUT a question goes on to the
+upstream, `dnsResponseAnswersRequest` has nothing to compare, and the answer to `n5.a.test. A` is stored under the
+key of the root name and type 0 and served to the next question-less client (finding
+`c09-questionless-query-cached-under-root-key`; reproduced in `design_notes/C09.md`).  In this model such a
+client never reaches `dialSend`; the statement below is what the repaired guard buys. -/
+theorem malformed_query_touches_nothing (s : St) (i : Nat) (c : Client) (hc : s.clients[i]? = some c)
+    (hp : s.pcs[i]? = some Pc.init) (hn : c.nq ≠ 1) :
+    let s' := step codeCfg s (.arrive i)
+    s'.cache = s.cache ∧ s'.calls = s.calls ∧ s'.flights = s.flights ∧ s'.active = s.active ∧
+      s'.outs = s.outs ++ [(i, .wrote (ownReply c rcodeFormErr false))] := by
+  simp [step, hc, hp, hn, St.setPc, St.emit]
 
 /-! The replies the four callers of `Handle_` build on an error (SERVFAIL, TC=1) are not part of any theorem:
 `errorReply` in the model is only the harness's reference for 60 direct calls of `sendDnsErrorResponse_` /
@@ -74,9 +110,9 @@ theorem no_foreign_answer_cached (cs : List Client) (as : List Act) (k : Key) (e
 /-- … and this is what the question check of fix b94e062 buys: without it a reachable state caches,
 and serves to a second client, the answer to another question (DESIGN §7 item 7). -/
 theorem question_unchecked_witness :
-    let cs : List Client := [⟨100, ⟨1, 0, 1, 1⟩, 0, .forward⟩, ⟨101, ⟨1, 0, 1, 1⟩, 0, .forward⟩]
+    let cs : List Client := [⟨100, ⟨1, 0, 1, 1⟩, 0, .forward, 1⟩, ⟨101, ⟨1, 0, 1, 1⟩, 0, .forward, 1⟩]
     let s := run { checkQuestion := false } (init cs)
-      [.arrive 0, .join 0, .resolve 0 .udp (.msg ⟨100, some ⟨2, 0, 1, 1⟩, true, 0, false, 6, false⟩) .fail, .wake 0, .arrive 1]
+      [.arrive 0, .join 0, .resolve 0 .udp [⟨(.msg ⟨100, some ⟨2, 0, 1, 1⟩, true, 0, false, 6, false⟩), .fail, .accept⟩], .wake 0, .arrive 1]
     (∃ e, (Key.mk 1 1 1 0, e) ∈ s.cache ∧ e.q.name = 2) ∧
     (∃ r, (1, Outcome.wrote r) ∈ s.outs ∧ r.q = some ⟨2, 0, 1, 1⟩) := by
   refine ⟨⟨⟨⟨2, 0, 1, 1⟩, 6⟩, by decide, rfl⟩, ⟨⟨101, some ⟨2, 0, 1, 1⟩, 0, false, 6, .cache⟩, by decide, rfl⟩⟩
@@ -112,6 +148,56 @@ theorem join_while_flight_runs_starts_no_resolution (s : St) (i f : Nat) (c : Cl
     (step codeCfg s (Act.join i)).calls = s.calls ∧ (step codeCfg s (Act.join i)).pcs[i]? = some (Pc.waiting f) :=
   join_running_no_call codeCfg s i f c hc hp hf
 
+/-- **Response routing cannot make `dialSend` ask for ever**: whatever the upstreams send and whatever response
+routing decides at every level, one `dialSend` issues at most `2 * MaxDnsLookupDepth` upstream exchanges (one per
+level, two with the `tcp+udp` fallback), and every level is subject to the question check again - the theorems of
+this section quantify over all scripts of rounds. -/
+theorem reask_is_bounded (c : Client) (rounds : List Round) :
+    ∀ (depth : Nat) (sch : Scheme), exchanges codeCfg c depth sch rounds ≤ 2 * (maxDepth - depth) := by
+  induction rounds with
+  | nil => intro depth sch; simp [exchanges]
+  | cons r rest ih =>
+    intro depth sch
+    unfold exchanges
+    split
+    · omega
+    · next hd =>
+      have hn : legs sch r.a1 ≤ 2 := by
+        unfold legs
+        split
+        · omega
+        · split <;> omega
+        · omega
+      generalize legs sch r.a1 = n at hn
+      simp only
+      split
+      · omega
+      · split
+        · omega
+        · split
+          · omega
+          · split
+            · next sch' _ => have := ih (depth + 1) sch'; omega
+            · omega
+
+/-- non-vacuity / the limits: response routing re-asks `ut` (tcp) for every answer; the third level is the
+last one asked (`MaxDnsLookupDepth = 3`), then the resolution fails and nothing is cached; with an `accept` at the
+third level the answer is cached under the FIRST upstream's key and written under the client's id; a `reject`
+caches and writes the message with an empty answer section; an answer to another question at the second level
+is refused there. -/
+example :
+    let c : Client := ⟨7, ⟨1, 0, 1, 1⟩, 10, .forward, 1⟩
+    let ok (ans : Nat) : Att := .msg ⟨99, some ⟨1, 2, 1, 1⟩, true, 0, false, ans, false⟩
+    let nx : Round := ⟨ok 600, .fail, .next .tcp⟩
+    (dialSend codeCfg c 0 .udp [nx, nx, nx, ⟨ok 5, .fail, .accept⟩] []).1 = .err .tooDeep ∧
+    exchanges codeCfg c 0 .udp [nx, nx, nx, ⟨ok 5, .fail, .accept⟩] = 3 ∧
+    dialSend codeCfg c 0 .udp [nx, nx, ⟨ok 5, .fail, .accept⟩] [] =
+      (.ok ⟨7, some ⟨1, 2, 1, 1⟩, true, 0, false, 5, false⟩, [(⟨1, 1, 1, 10⟩, ⟨⟨1, 0, 1, 1⟩, 5⟩)]) ∧
+    dialSend codeCfg c 0 .udp [nx, ⟨ok 800, .fail, .reject⟩] [] =
+      (.ok ⟨7, some ⟨1, 2, 1, 1⟩, true, 0, false, 0, false⟩, [(⟨1, 1, 1, 10⟩, ⟨⟨1, 0, 1, 1⟩, 0⟩)]) ∧
+    (dialSend codeCfg c 0 .udp [nx, ⟨.msg ⟨7, some ⟨2, 0, 1, 1⟩, true, 0, false, 6, false⟩, .fail, .accept⟩] []).1
+      = .err .mismatch := by decide
+
 /-- **Where answers come from.** Every cached answer, and the answer of every reply that is not built from
 the client's own message, is the answer section of an upstream message that `dialSend` accepted for that
 very key (i.e. after the question check: its question has the key's name, type and class). -/
@@ -134,25 +220,25 @@ theorem answers_come_from_accepted_upstream_messages (cs : List Client) (as : Li
 /-- k concurrent identical questions: one upstream resolution (non-vacuity of the above, with k=3
 clients of which two collide on the ID). -/
 example :
-    let cs : List Client := [⟨7, ⟨1, 0, 1, 1⟩, 0, .forward⟩, ⟨7, ⟨1, 1, 1, 1⟩, 0, .forward⟩, ⟨9, ⟨1, 2, 1, 1⟩, 0, .forward⟩]
+    let cs : List Client := [⟨7, ⟨1, 0, 1, 1⟩, 0, .forward, 1⟩, ⟨7, ⟨1, 1, 1, 1⟩, 0, .forward, 1⟩, ⟨9, ⟨1, 2, 1, 1⟩, 0, .forward, 1⟩]
     let s := run codeCfg (init cs) [.arrive 0, .arrive 1, .join 0, .arrive 2, .join 2, .join 1]
     s.calls.length = 1 ∧ s.pcs = [.leading 0, .waiting 0, .waiting 0] := by decide
 
 /-- class is part of the question (fix 4150de7): a `CH` and an `IN` client for the same name and type are
 not coalesced, the `CH` answer is not cached, the `IN` client is not served from it. -/
 example :
-    let cs : List Client := [⟨7, ⟨1, 0, 16, 3⟩, 0, .forward⟩, ⟨8, ⟨1, 0, 16, 1⟩, 0, .forward⟩]
+    let cs : List Client := [⟨7, ⟨1, 0, 16, 3⟩, 0, .forward, 1⟩, ⟨8, ⟨1, 0, 16, 1⟩, 0, .forward, 1⟩]
     let s := run codeCfg (init cs)
       [.arrive 0, .join 0, .arrive 1, .join 1,
-       .resolve 0 .udp (.msg ⟨7, some ⟨1, 0, 16, 3⟩, true, 0, false, 5, false⟩) .fail, .wake 0]
+       .resolve 0 .udp [⟨(.msg ⟨7, some ⟨1, 0, 16, 3⟩, true, 0, false, 5, false⟩), .fail, .accept⟩], .wake 0]
     s.calls.length = 2 ∧ s.cache = [] ∧ s.pcs = [.done, .leading 1] := by decide
 
 /-- the leader's re-check: the cache is filled between a client's first lookup and its `sf.Do`; it
 becomes the leader of a flight that needs no upstream exchange. -/
 example :
-    let cs : List Client := [⟨7, ⟨1, 0, 1, 1⟩, 0, .forward⟩, ⟨8, ⟨1, 2, 1, 1⟩, 0, .forward⟩]
+    let cs : List Client := [⟨7, ⟨1, 0, 1, 1⟩, 0, .forward, 1⟩, ⟨8, ⟨1, 2, 1, 1⟩, 0, .forward, 1⟩]
     let s := run codeCfg (init cs)
-      [.arrive 0, .arrive 1, .join 0, .resolve 0 .udp (.msg ⟨7, some ⟨1, 0, 1, 1⟩, true, 0, false, 5, false⟩) .fail, .join 1, .wake 1, .wake 0]
+      [.arrive 0, .arrive 1, .join 0, .resolve 0 .udp [⟨(.msg ⟨7, some ⟨1, 0, 1, 1⟩, true, 0, false, 5, false⟩), .fail, .accept⟩], .join 1, .wake 1, .wake 0]
     s.calls.length = 1 ∧ s.flights.length = 2 ∧ s.outs.length = 2 := by decide
 
 /-- **… whose result reaches every waiter, once.** A client blocked in `sf.Do` on a finished flight
@@ -369,5 +455,139 @@ theorem idle_evict_direct_close_under_user :
     s.closes = 1 ∧ s.retired = false ∧ s.pcs[0]? = some Pc.busy ∧ s.badUses = 1 := by decide
 
 end Fwd
+
+/-! ## §5 the users of the entries: `forwardWithDialArg`, `getOrCreateDnsForwarder`, reset, idle eviction -/
+section Loop
+open Loop
+
+/-- **Every forwarder the controller ever creates for a cache key is closed at most once, and never while one
+of its exchanges runs.**  For any number of goroutines and every interleaving of the atomic operations of
+`forwardWithDialArg` (two rounds of get-or-create / `beginUse` / `ForwardDNS` / `endUse`, retire on failure),
+`getOrCreateDnsForwarder` (`Load`, factory, `LoadOrStore`, the loser of a creation race closing its own
+forwarder), `retireAllDnsForwarders` and `evictIdleDnsForwarders`, and for every transport outcome, in every
+reachable state and for every forwarder `e` (counting the closes through the entry's `closeOnce` and the direct
+`Close()` of a race loser together):
+* `Close()` ran at most once;
+* if it ran, no goroutine is inside `ForwardDNS` on that forwarder (and none can enter: `badUses = 0` says no
+  exchange was ever started on a closed forwarder);
+* a close through the entry happened only after the entry was retired;
+* a forwarder that lost the creation race was never used by anybody. -/
+theorem every_forwarder_closed_at_most_once_never_under_an_exchange (n : Nat) (as : List Act) (e : Nat) (x : Ent)
+    (h : (run (init n) as).ent e = some x) :
+    x.f.closes + x.rawCloses ≤ 1 ∧
+    (0 < x.f.closes + x.rawCloses → ∀ p ∈ x.f.pcs, p ≠ Fwd.Pc.busy) ∧
+    x.f.badUses = 0 ∧
+    (x.f.closes = 1 → x.f.retired = true) ∧
+    (x.status ≠ .published → x.f = pristine n) := by
+  have hinv := linv_run as _ (linv_init n)
+  have hn : (run (init n) as).n = n := by
+    have : ∀ (as : List Act) (s : St), (run s as).n = s.n := by
+      intro as
+      induction as with
+      | nil => intro s; rfl
+      | cons a as ih =>
+        intro s
+        simp only [run, List.foldl_cons] at ih ⊢
+        rw [ih]
+        cases a <;> simp only [step, stepT] <;> (repeat' split) <;>
+          simp only [St.setO, St.ret, applyF_n, St.updEnt] <;> (repeat' split) <;> rfl
+    exact this as _
+  have hraw := hinv.raw e x h
+  by_cases hp : x.status = .published
+  · have hfi := hinv.fwdInv e x h
+    have hr0 : x.rawCloses = 0 := hraw.2 (by rw [hp]; simp)
+    have hle : x.f.closes ≤ 1 := by
+      cases ho : x.f.once
+      · have := hfi.closes0 ho; omega
+      · have := hfi.closes1 ho; omega
+    refine ⟨by omega, ?_, hfi.bad, ?_, fun hne => absurd hp hne⟩
+    · intro hc
+      have ho : x.f.once = true := by
+        cases ho : x.f.once
+        · have := hfi.closes0 ho; omega
+        · rfl
+      have hz := hfi.noUse (.inl ho)
+      intro p hp' hb
+      subst hb
+      have : 0 < x.f.pcs.countP Fwd.isUsing := List.countP_pos_iff.mpr ⟨Fwd.Pc.busy, hp', rfl⟩
+      omega
+    · intro hc
+      have ho : x.f.once = true := by
+        cases ho : x.f.once
+        · have := hfi.closes0 ho; omega
+        · rfl
+      exact hfi.onceRet ho
+  · have hpr := hinv.prist e x h hp
+    rw [hn] at hpr
+    have hrc : x.rawCloses ≤ 1 := by
+      by_cases hl : x.status = .lost
+      · have := hraw.1 hl; omega
+      · have := hraw.2 hl; omega
+    refine ⟨?_, ?_, ?_, ?_, fun _ => hpr⟩
+    · rw [hpr]; simp only [pristine, Fwd.init]; omega
+    · intro _ p hp' hb
+      rw [hpr] at hp'
+      simp only [pristine, Fwd.init] at hp'
+      have := (List.mem_replicate.mp hp').2
+      rw [hb] at this; cases this
+    · rw [hpr]; rfl
+    · intro hc; rw [hpr] at hc; simp [pristine, Fwd.init] at hc
+
+/-- **… and none is leaked.**  Once every goroutine has returned, every forwarder ever created is either the one
+entry still in the cache (there is at most one) or has been closed - exactly once by the first part: a published
+entry through its own `closeOnce` after it was retired, the loser of a creation race by its creator. -/
+theorem no_forwarder_leaked_when_quiescent (n : Nat) (as : List Act) :
+    let s := run (init n) as
+    (∀ t, s.opc t = .idle) →
+    (∀ e x, s.ent e = some x →
+      (x.status = .published ∧ x.rawCloses = 0 ∧ (x.f.inCache = true ∨ x.f.closes = 1)) ∨
+      (x.status = .lost ∧ x.rawCloses = 1 ∧ x.f.closes = 0)) ∧
+    (∀ e1 e2 x1 x2, s.ent e1 = some x1 → s.ent e2 = some x2 → x1.f.inCache = true → x2.f.inCache = true → e1 = e2) := by
+  intro s hq
+  have hinv : LInv s := linv_run as _ (linv_init n)
+  refine ⟨?_, hinv.uniq⟩
+  intro e x hx
+  have hraw := hinv.raw e x hx
+  have hidle : ∀ p ∈ x.f.pcs, p = Fwd.Pc.idle := by
+    intro p hp
+    obtain ⟨t, ht⟩ := List.mem_iff_getElem?.mp hp
+    by_cases hpi : p = .idle
+    · exact hpi
+    · have := hinv.inn e x t p hx ht hpi
+      rw [hq t] at this
+      exact absurd this (by simp [uses])
+  cases hs : x.status with
+  | fresh =>
+    obtain ⟨t, ht⟩ := hinv.owner e x hx hs
+    rw [hq t] at ht
+    exact absurd ht (by simp [owns])
+  | lost =>
+    right
+    have hpr := hinv.prist e x hx (by rw [hs]; simp)
+    exact ⟨rfl, hraw.1 hs, by rw [hpr]; rfl⟩
+  | published =>
+    left
+    refine ⟨rfl, hraw.2 (by rw [hs]; simp), ?_⟩
+    cases hc : x.f.inCache
+    · right
+      have hl := hinv.leak e x hx hs hc
+      have hcnt : x.f.pcs.countP Fwd.isR1 = 0 := Fwd.countP_zero_of_all_idle Fwd.isR1 rfl _ hidle
+      rcases hl with hr | hr
+      · exact Fwd.closed_of_retired_quiescent fcfg x.f (hinv.fwdInv e x hx) hr hidle
+      · omega
+    · exact .inl rfl
+
+/-- non-vacuity: a creation race (both goroutines miss the cache and create a forwarder; goroutine 0 wins
+`LoadOrStore`, goroutine 1 closes its own forwarder and goes on with the winner's entry), goroutine 1's exchange
+fails and retires the entry while goroutine 0's exchange runs; the last `endUse` closes it. -/
+example :
+    let s := run (init 2) ([.call 0 .ok, .call 1 .fail, .step 0, .step 1, .step 0, .step 1, .step 0, .step 1, .step 1] ++
+      (List.replicate 14 [Act.step 0, Act.step 1]).flatten)
+    s.rets = [(0, .ok), (1, .err)] ∧ s.nents = 2 ∧ cachedIdx s = none ∧ s.opc 0 = .idle ∧ s.opc 1 = .idle ∧
+    (s.ent 0).map (fun x => (x.status, x.rawCloses, x.f.closes, x.f.retired)) = some (.published, 0, 1, true) ∧
+    (s.ent 1).map (fun x => (x.status, x.rawCloses, x.f.closes, x.f.retired)) = some (.lost, 1, 0, false) := by
+  decide
+
+end Loop
 
 end DaeVerif.C09.Props
